@@ -1,5 +1,13 @@
 """C07 — store indices follow insertion order across sessions and evictions.
 
+R1c, R3 (length), R4, R5, R6 are decided on *symbolic paths* (`Sym`, bottom of this module): every path through a
+function is walked structurally - if / guard clause / early return / conditional expression / tuple packing and
+unpacking / walrus / private helpers of the module, which are entered and summarised per return path - keeping per
+path the value of every local (and of `self.attr` written on the path) as an expression over the function's inputs,
+and the branch conditions taken, in a canonical spelling.  A rule then asks which value reaches which use under which
+conditions; it never looks for a particular statement, local name or helper.  What the engine cannot follow is
+UNDECIDED, never a violation.
+
 R1  size-table freshness.  `NcFiles.size_index` is a snapshot of trajectory
     counts.  For every construction site of NcFiles that describes a file which
     can still grow (opened for append or newly created), either the snapshot is
@@ -8,22 +16,45 @@ R1  size-table freshness.  `NcFiles.size_index` is a snapshot of trajectory
     confirmed by reading; an unknown site is treated as growable.
 R1b the only site that does take a snapshot (merged stores) is read-only: the
     constructor refuses every writable mode for merged stores before opening.
-R1c in _load_trajectory the two locate branches are exhaustive: the
-    size-table branch is taken iff the table is not None, the direct branch
-    uses the requested index unchanged.
+R1c locate paths: on every path of _load_trajectory that reaches a record read
+    (`_read_from_nc_var`) with "no size table" established (or without using the
+    table), the record read is the requested index itself, of file 0; the table
+    is used only on paths that established that it exists.  (The arithmetic on
+    the table paths is C09-R3.)
 R2  one increment per successful add: on every normal path through `add` the
     next-index counter is incremented exactly once, and the returned value is
     a copy of the counter taken before the increment.
-R3  length source: __len__ sums the trajectory dimension over *all* files of
-    the measuring field set; APPEND initialises the counter from the same
-    dimension.
-R4  eviction refusal wiring: the cache's popitem raises before evicting when
-    the flag is set; the flag is set iff the store has no base file and is
-    cleared only by `save` after everything was written.
+R3  length: every value __len__ can return is classified - the sum of the
+    trajectory dimension over *all* files of the measuring field set (a single
+    element is wrong for merged stores), the cache size for an in-memory store,
+    or a *stored count* (`self.<attr>`).  A stored count is a freshness
+    obligation like R1: some function on the add path must update or clear it,
+    unless every store of the count happens under modes in which add() refuses
+    (decided by evaluating the path conditions of the stores and of add's
+    refusals over the members of the file-mode enum).  APPEND initialises the
+    counter from the same dimension.
+R4  eviction refusal, per site: every path to the base-class popitem() has seen
+    the refusal flag unset and the set flag raises; the flag becomes true only
+    in the store's constructor under "no base file" (guarded store, the
+    condition itself as value, or the cache's constructor parameter with
+    default False), and false only as the default, under "has a base file", or
+    in `save` at a point from which no trajectory write is reachable.
 R7  file-link typestate (C08-R5): no list operation dereferences file-only
     state on a store that has no file attached.
-R5  the cache key under which a loaded trajectory is stored is the requested
-    index, and __getitem__ consults the cache with that same key.
+R5  cache-key discipline: every store of a loaded trajectory into the cache is
+    keyed by the requested index; every return of __getitem__ is the cache
+    entry of the requested index on a path that established membership (or a
+    `.get()` tested against None - a truth-value test treats an empty
+    trajectory as missing); every load is of the requested index; an unknown
+    index is refused by absence.
+R6  iteration yields store[0], store[1], …: every value __iter__ can return is
+    a fresh iterator whose position is an index that starts at 0, is read
+    through store[index], advances by one and stops at len(store) (iterator
+    class with a cursor - decided per path of __init__/__next__ -, generator or
+    generator expression over range(len(store))).  The store as its own
+    iterator shares one cursor; an iterator over the cache mapping yields cache
+    order (read order) and only resident items.  `save` counts the trajectories
+    before the files exist and writes index i at position i.
 """
 
 from __future__ import annotations
@@ -33,7 +64,7 @@ import copy
 
 from ..algebra import AlgebraError, normal_form
 from ..astutil import (ancestors, arg_or_kw, assigned_names, call_name, calls_in, conjuncts, eval_pred, guards_of,
-                       kwarg, names_in, norm, single_def_value, stmt_of, stores_to, walk_no_nested)
+                       kwarg, norm, single_def_value, stmt_of, stores_to, walk_no_nested)
 from ..cfg import CFG
 from ..loader import dotted_name
 from ..resolve import closure, resolve_call, resolve_class_call
@@ -116,58 +147,9 @@ def run(ctx):
            'nothing refuses opening a merged store for APPEND: its size table would go stale',
            line=(found[1].lineno if found else init.node.lineno))
 
-    # ---- R1c locate branches -------------------------------------------------
-    load = m.func('TrajectoryStore._load_trajectory')
-    branch = None
-    for n in walk_no_nested(load.node):
-        if isinstance(n, ast.If) and 'size_index' in norm(n.test) and 'is not None' in norm(n.test):
-            branch = n
-            break
-        if isinstance(n, ast.If) and 'size_index' in norm(n.test) and 'is None' in norm(n.test):
-            branch = n
-            break
-    if branch is None:
-        ctx.undecided('C07-R1c', load, 'size_index branch', 'locate code no longer branches on size_index')
-    gi_defs = [s for t, s, how in stores_to(load.node) if isinstance(t, ast.Name) and t.id == 'group_index']
-    direct = [s for s in gi_defs if not any(a is branch for a in ancestors(s))]
-    ok = len(direct) == 1 and isinstance(direct[0].value, ast.Name) and direct[0].value.id in load.params
-    ctx.ob('C07-R1c', load, 'direct branch uses the requested index unchanged', ok,
-           f'group_index defaults to parameter `{norm(direct[0].value)}`' if ok else
-           'the index used for a single file is not the requested index',
-           line=(direct[0].lineno if direct else load.node.lineno))
-    # every read of var at group_index / the loaded item is cached under `index`
-    cache_store = [st for t, st, how in stores_to(load.node)
-                   if isinstance(t, ast.Subscript) and isinstance(t.value, ast.Attribute)
-                   and t.value.attr == '_trajectories']
-    ok = len(cache_store) == 1 and isinstance(cache_store[0].targets[0].slice, ast.Name) \
-        and cache_store[0].targets[0].slice.id == load.params[1]
-    ctx.ob('C07-R5', load, 'loaded trajectory cached under the requested index', ok,
-           f'{norm(cache_store[0])}' if ok else 'the cache key is not the requested index',
-           line=(cache_store[0].lineno if cache_store else load.node.lineno))
-    reads = [c for c in calls_in(load.node) if call_name(c).endswith('_read_from_nc_var')]
-    for c in reads:
-        a = c.args[1] if len(c.args) > 1 else kwarg(c, 'index')
-        ok = isinstance(a, ast.Name) and a.id == 'group_index'
-        ctx.ob('C07-R5', load, f'record read at {norm(a)}', ok,
-               'reads the located record' if ok else 'reads a different record than the one located',
-               line=c.lineno)
-    gi = m.func('TrajectoryStore.__getitem__')
-    key = gi.params[1]
-    subs = [n for n in walk_no_nested(gi.node) if isinstance(n, ast.Subscript)
-            and isinstance(n.value, ast.Attribute) and n.value.attr == '_trajectories']
-    cmps = [n for n in walk_no_nested(gi.node) if isinstance(n, ast.Compare)
-            and any(isinstance(c, ast.Attribute) and c.attr == '_trajectories' for c in n.comparators)]
-    loads_ = [c for c in calls_in(gi.node) if call_name(c).endswith('_load_trajectory')]
-    ok = bool(subs) and all(isinstance(s.slice, ast.Name) and s.slice.id == key for s in subs) \
-        and all(isinstance(c.left, ast.Name) and c.left.id == key for c in cmps) \
-        and all(c.args and isinstance(c.args[0], ast.Name) and c.args[0].id == key for c in loads_)
-    ctx.ob('C07-R5', gi, 'cache consulted, loaded and returned under one key', ok,
-           f'{len(subs)} subscripts, {len(cmps)} membership tests, {len(loads_)} loads all use `{key}`'
-           if ok else 'cache lookup / load / return do not use the same key')
-    raises = [n for n in walk_no_nested(gi.node) if isinstance(n, ast.Raise) and 'IndexError' in norm(n)]
-    ctx.ob('C07-R5', gi, 'unknown index reported as IndexError', bool(raises),
-           'raise IndexError present' if raises else 'an index beyond the end is not reported as out of range',
-           nontrivial=False)
+    # ---- R1c locate paths, R5 cache-key discipline (decided on symbolic paths, see below) ----------------
+    rule_locate(ctx, prog, m)
+    rule_getitem(ctx, prog, m)
 
     # ---- R2 one increment per successful add -------------------------------
     g = CFG(add.node)
@@ -243,25 +225,7 @@ def run(ctx):
             ctx.obligations.append(o)
 
     # ---- R3 length source ----------------------------------------------------
-    ln = m.func('TrajectoryStore.__len__')
-    rets = [n for n in walk_no_nested(ln.node) if isinstance(n, ast.Return) and n.value is not None]
-    file_ret = [r for r in rets if 'traj_dim' in norm(r.value)]
-    mem_ret = [r for r in rets if '_trajectories' in norm(r.value)]
-    if not file_ret:
-        ctx.undecided('C07-R3', ln, 'file-backed length', 'no return mentioning traj_dim')
-    for r in file_ret:
-        txt = norm(r.value)
-        const_sub = any(isinstance(x, ast.Subscript) and isinstance(x.value, ast.Attribute)
-                        and x.value.attr == 'traj_dim' and isinstance(x.slice, ast.Constant)
-                        for x in ast.walk(r.value))
-        agg = txt.startswith('sum(') and 'len(' in txt
-        if not const_sub and not agg:
-            ctx.undecided('C07-R3', ln, txt, 'length expression is neither a sum over traj_dim nor a single element')
-        ctx.ob('C07-R3', ln, f'return {txt}', agg and not const_sub,
-               'sums the trajectory dimension of every file of the field set' if agg and not const_sub
-               else 'length looks at one file only: wrong for merged stores', line=r.lineno)
-    ctx.ob('C07-R3', ln, 'in-memory length is the cache size', bool(mem_ret),
-           'len(self._trajectories) when not linked' if mem_ret else 'no in-memory length', nontrivial=False)
+    rule_len(ctx, prog, m, add)
     opn = m.func('TrajectoryStore._open')
     sets = [st for t, st, how in stores_to(opn.node)
             if isinstance(t, ast.Attribute) and t.attr == '_next_index']
@@ -271,100 +235,11 @@ def run(ctx):
            norm(sets[0]) if ok else 'the counter is not initialised from the trajectory dimension on APPEND',
            line=(sets[0].lineno if sets else opn.node.lineno))
 
-    # ---- R4 eviction wiring ----------------------------------------------------
-    cache = m.cls('TrajectoryCache')
-    pop = cache.methods.get('popitem')
-    if pop is None:
-        ctx.undecided('C07-R4', (m.relpath, 'TrajectoryCache'), 'popitem', 'method not found')
-    gp = CFG(pop.node)
-    raise_n = [n for n in gp.nodes if n.kind == 'stmt' and isinstance(n.stmt, ast.Raise)]
-    sup_n = [n for n in gp.nodes if n.stmt is not None and n.kind == 'stmt'
-             and any(isinstance(c.func, ast.Attribute) and c.func.attr == 'popitem' for c in calls_in(n.stmt))]
-    okp = False
-    if raise_n and sup_n:
-        gs = guards_of(raise_n[0].stmt)
-        okp = any('exception_on_eviction' in norm(x) and pol for x, pol, _ in gs) and \
-            not gp.reaches(sup_n[0].id, raise_n[0].id)
-        test_nodes = [t for _, _, o in gs for t in gp.nodes_of(o)]
-        domp = gp.dominators()
-        okp = okp and any(t in domp[sup_n[0].id] for t in test_nodes)
-    ctx.ob('C07-R4', pop, 'refusal precedes the eviction', okp,
-           'raise under exception_on_eviction dominates super().popitem()' if okp else
-           'the cache can evict from an in-memory store (the trajectory would be lost)')
-    flag_sets = []
-    for fn in m.functions.values():
-        for t, st, how in stores_to(fn.node):
-            if isinstance(t, ast.Attribute) and t.attr == 'exception_on_eviction':
-                flag_sets.append((fn, st))
-    ctx.floor('C07-R4', len(flag_sets), 3, 'stores of exception_on_eviction')
-    for fn, st in flag_sets:
-        val = st.value.value if isinstance(st.value, ast.Constant) else None
-        if val is True:
-            gs = [norm(x) for x, pol, _ in guards_of(st) if pol]
-            ok = fn.qualname == 'TrajectoryStore.__init__' and any('base_file is None' in t for t in gs)
-            why = 'set exactly when the store has no base file' if ok else \
-                'flag set under a different condition than "no base file"'
-        elif val is False:
-            if fn.qualname == 'TrajectoryCache.__init__':
-                ok, why = True, 'default'
-            elif fn.qualname == 'TrajectoryStore.save':
-                # must come after the write loop
-                body = fn.node.body
-                idx = next(i for i, s in enumerate(body) if s is st) if st in body else -1
-                wr = [i for i, s in enumerate(body) if any(call_name(c).endswith('_write_trajectory') for c in calls_in(s))]
-                ok = idx >= 0 and bool(wr) and idx > max(wr)
-                why = 'cleared after every trajectory was written' if ok else \
-                    'evictions are allowed before the trajectories were written to the new file'
-            else:
-                ok, why = False, 'eviction refusal cleared outside save()'
-        else:
-            ok, why = False, 'non-constant value'
-        ctx.ob('C07-R4', fn, norm(st), ok, why, line=st.lineno)
+    # ---- R4 eviction wiring (per site, see rule_eviction) ---------------------------------------------
+    rule_eviction(ctx, prog, m)
     # ---- R6 iteration and save walk the indices 0 .. len-1 in order -----------
-    it0 = m.func('TrajectoryStore.__iter__')
-    r0 = [n for n in walk_no_nested(it0.node) if isinstance(n, ast.Return)]
-    if len(r0) == 1 and norm(r0[0].value) == 'self':
-        ctx.ob('C07-R6', it0, '__iter__ returns a fresh iterator', False,
-               'the store is its own iterator: the position is kept on the store, so two overlapping iterations '
-               '(nested loops, zip(store, store), a partly consumed iterator) share and reset one cursor and no longer '
-               'yield the trajectories in insertion order', line=r0[0].lineno)
-        return
-    itname = call_name(r0[0].value) if len(r0) == 1 and isinstance(r0[0].value, ast.Call) else None
-    itc = m.classes.get(itname) if itname else None
-    if itc is None:
-        ctx.undecided('C07-R6', it0, '__iter__', 'iterator class not found')
-    nx = itc.methods.get('__next__')
-    ini = itc.methods.get('__init__')
-    if nx is None or ini is None:
-        ctx.undecided('C07-R6', (m.relpath, itc.name), '__next__', 'iterator methods not found')
-    src = ' '.join(norm(s_) for s_ in nx.node.body)
-    ok = 'if self._index < len(self._store)' in src and 'item = self._store[self._index]' in src \
-        and 'self._index += 1' in src and 'raise StopIteration' in src
-    start = [st for t, st, how in stores_to(ini.node) if norm(t) == 'self._index']
-    ok = ok and len(start) == 1 and norm(start[0].value) == '0'
-    ctx.ob('C07-R6', nx, 'iteration yields store[0], store[1], … while index < len(store)', ok,
-           'starts at 0, reads store[index], then advances by one, stops at len' if ok else
-           'iteration does not walk the indices 0..len-1 in order')
-    it = m.func('TrajectoryStore.__iter__')
-    r = [n for n in walk_no_nested(it.node) if isinstance(n, ast.Return)]
-    ok = len(r) == 1 and norm(r[0].value) == f'{itc.name}(self)'
-    ctx.ob('C07-R6', it, '__iter__ hands out a fresh iterator over this store', ok, norm(r[0].value) if ok else '__iter__ changed', nontrivial=False)
-    sv = m.func('TrajectoryStore.save')
-    n_def = single_def_value(sv.node, 'trajectories_to_save')
-    g2 = CFG(sv.node)
-    dom2 = g2.dominators(edge_ok=lambda a, b, lab: lab != 'e')
-    cr = [n for n in g2.nodes if n.stmt is not None and n.kind == 'stmt' and any(call_name(c) == 'self._create' for c in calls_in(n.stmt))]
-    nd = [n for n in g2.nodes if n.stmt is not None and n.kind == 'stmt' and isinstance(n.stmt, ast.Assign)
-          and norm(n.stmt.targets[0]) == 'trajectories_to_save']
-    ok = n_def is not None and norm(n_def) == 'len(self)' and bool(cr) and bool(nd) and nd[0].id in dom2[cr[0].id]
-    ctx.ob('C07-R6', sv, 'save counts the in-memory trajectories before the files exist', ok,
-           'len(self) taken before _create() switches the length source to the (empty) file' if ok else
-           'save measures the store after linking it to the new, empty files: nothing (or the wrong number) is written')
-    wl = [n for n in walk_no_nested(sv.node) if isinstance(n, ast.For) and any(call_name(c) == 'self._write_trajectory' for c in calls_in(n))]
-    ok = len(wl) == 1 and norm(wl[0].iter) == 'range(trajectories_to_save)' and \
-        any(call_name(c) == 'self._write_trajectory' and [norm(a) for a in c.args] == [norm(wl[0].target)] for c in calls_in(wl[0]))
-    ctx.ob('C07-R6', sv, 'save writes indices 0 .. n-1, each at its own index', ok, 'for i in range(n): _write_trajectory(i)' if ok else
-           'save does not write every cached trajectory at its own index')
+    rule_iter(ctx, prog, m)
+    rule_save(ctx, prog, m)
 
     # the flag is set on an in-memory store only if base_file is None: also the
     # in-memory condition of __init__ must read the attribute the checker set
@@ -381,6 +256,762 @@ def _in_reraising_handler(stmt):
         if isinstance(a, (ast.FunctionDef, ast.AsyncFunctionDef)):
             return False
     return False
+
+
+# ======================================================================================================
+# Semantic sub-rules built on the symbolic paths
+# ======================================================================================================
+
+CACHE_ATTR = '_trajectories'
+
+
+def _strip(e: ast.AST | str) -> str:
+    return sym_show(e) if not isinstance(e, str) else e
+
+
+def recv_attr(e: ast.AST, attr: str, recv: str = 'self') -> bool:
+    """e is `<recv>.<attr>` (in any heap epoch)"""
+    return isinstance(e, ast.Attribute) and e.attr == attr and isinstance(e.value, ast.Name) \
+        and _base_id(e.value.id) == recv
+
+
+def _is_name(e: ast.AST, name: str) -> bool:
+    return isinstance(e, ast.Name) and e.id == name
+
+
+def _nf(e: ast.expr):
+    try:
+        return normal_form(ast.parse(_strip(e), mode='eval').body)
+    except (AlgebraError, SyntaxError):
+        return None
+
+
+def _diff(a: ast.expr, b: ast.expr):
+    """exact rational constant a - b, or None when it is not a constant"""
+    na, nb = _nf(a), _nf(b)
+    if na is None or nb is None:
+        return None
+    d = na - nb
+    return d.const() if d.is_const() else None
+
+
+class LocatePath:
+    """one path through the locate code to a record read: which file object (X), which group list key (K), which
+    file position (F) and which record index (rec) reach the read, under which facts"""
+
+    def __init__(self, hit, var, rec, X, K, F):
+        self.hit, self.var, self.rec, self.X, self.K, self.F, self.state = hit, var, rec, X, K, F, hit.state
+
+    def table_none(self, X=None):
+        """True: the path established that X's size table is None; False: that it exists; None: neither"""
+        return self.state.fact(f'{norm(X if X is not None else self.X)}.size_index is None')
+
+    def other_tables(self):
+        """size-table tests on this path about other objects than the files that are read: [(object text, is None)]"""
+        out = []
+        for k, p, e in self.state.facts:
+            if isinstance(e, ast.Compare) and isinstance(e.ops[0], ast.Is) and isinstance(e.left, ast.Attribute) \
+                    and e.left.attr == 'size_index' and isinstance(e.comparators[0], ast.Constant) \
+                    and e.comparators[0].value is None and norm(e.left.value) != norm(self.X):
+                out.append((e.left.value, p))
+        return out
+
+    def uses_table(self) -> bool:
+        return any(isinstance(x, ast.Attribute) and x.attr == 'size_index'
+                   for part in (self.rec, self.F) for x in ast.walk(part))
+
+
+def locate_paths(ctx, rule: str, prog, m) -> tuple[list[LocatePath], object]:
+    """Paths of _load_trajectory to every read of a record (`_read_from_nc_var`), through helpers of the module."""
+    load = m.func('TrajectoryStore._load_trajectory')
+    rd = m.func('TrajectoryStore._read_from_nc_var')
+    pn = rd.params[1:] if rd.params and rd.params[0] == 'self' else rd.params
+
+    def is_read(n):
+        return isinstance(n, ast.Call) and isinstance(n.func, ast.Attribute) and n.func.attr == rd.name
+
+    try:
+        sym = Sym(prog, load).run(is_read)
+    except SymUndecided as e:
+        ctx.undecided(rule, load, 'locate paths', str(e))
+    out = []
+    for h in sym.hits:
+        a_var, a_idx = arg_or_kw(h.node, 0, pn[0]), arg_or_kw(h.node, 1, pn[1])
+        if a_var is None or a_idx is None:
+            ctx.undecided(rule, load, norm(h.node)[:60], 'cannot tell the variable / record arguments of the read')
+        var, rec = h.ev(a_var), h.ev(a_idx)
+        chain = None
+        for x in ast.walk(var):
+            if isinstance(x, ast.Subscript) and isinstance(x.value, ast.Subscript) \
+                    and isinstance(x.value.value, ast.Attribute) and x.value.value.attr == 'groups':
+                chain = x
+                break
+        if chain is None:
+            ctx.undecided(rule, load, _strip(var)[:80], 'the variable read is not taken from <files>.groups[<field set>][<file>]')
+        out.append(LocatePath(h, var, rec, chain.value.value.value, chain.value.slice, chain.slice))
+    return out, load
+
+
+def rule_locate(ctx, prog, m):
+    """C07-R1c: a store that consists of one growing file is read at the requested index itself."""
+    paths, load = locate_paths(ctx, 'C07-R1c', prog, m)
+    idx = load.params[1]
+    direct = 0
+    for p in paths:
+        t = p.table_none()
+        if t is None and p.other_tables():
+            # located with the table of other files than the ones read: which table that must be is C09-R3;
+            # for the single-file case the test on that other object stands in
+            vals = {pol for _, pol in p.other_tables()}
+            t = vals.pop() if len(vals) == 1 else None
+        if t is True or (t is None and not p.uses_table()):
+            direct += 1
+            ok = _is_name(p.rec, idx) and isinstance(p.F, ast.Constant) and p.F.value == 0
+            ctx.ob('C07-R1c', load, 'a single file is read at the requested index unchanged', ok,
+                   f'without a size table record `{_strip(p.rec)}` of file {_strip(p.F)} is read' if ok else
+                   f'on the path without a size table the record read is `{_strip(p.rec)}` of file `{_strip(p.F)}`, not '
+                   f'`{idx}` of file 0: the index used for a single file is not the requested index',
+                   line=p.hit.node.lineno)
+        elif t is None:
+            ctx.undecided('C07-R1c', load, _strip(p.rec)[:80],
+                          'the size table is used on a path that did not establish that it exists')
+        else:
+            ctx.ob('C07-R1c', load, 'the size table is consulted only where it exists', True,
+                   f'record `{_strip(p.rec)[:70]}` under `size_index is not None` (arithmetic: C09-R3)',
+                   line=p.hit.node.lineno, nontrivial=False)
+    ctx.floor('C07-R1c', direct, 1, 'paths that read a single file directly')
+
+    # R5: the loaded trajectory is cached under the requested index
+    def is_cache_store(n):
+        if isinstance(n, ast.Assign):
+            return any(isinstance(t, ast.Subscript) and recv_attr(t.value, CACHE_ATTR) for t in n.targets)
+        return isinstance(n, ast.Call) and isinstance(n.func, ast.Attribute) and recv_attr(n.func.value, CACHE_ATTR) \
+            and n.func.attr in ('__setitem__', 'setdefault', 'update')
+
+    try:
+        sym = Sym(prog, load).run(is_cache_store)
+    except SymUndecided as e:
+        ctx.undecided('C07-R5', load, 'cache store', str(e))
+    ctx.floor('C07-R5', len(sym.hits), 1, 'stores of the loaded trajectory into the cache')
+    for h in sym.hits:
+        n = h.node
+        if isinstance(n, ast.Assign):
+            keys = [t.slice for t in n.targets if isinstance(t, ast.Subscript)]
+        elif n.func.attr == 'update':
+            keys = list(n.args[0].keys) if n.args and isinstance(n.args[0], ast.Dict) else []
+            if not keys:
+                ctx.undecided('C07-R5', load, norm(n)[:60], 'cache updated from an unknown mapping')
+        else:
+            keys = n.args[:1]
+        for k in keys:
+            kv = h.ev(k)
+            ok = _is_name(kv, idx)
+            ctx.ob('C07-R5', load, 'loaded trajectory cached under the requested index', ok,
+                   f'cache key `{_strip(kv)}`' if ok else
+                   f'the cache key `{_strip(kv)}` is not the requested index `{idx}`', line=n.lineno)
+    for p in paths:
+        # the record that is read is the located one: on the direct path the index itself (above), on the table
+        # path an index derived from the table entry of the file that is read
+        if p.table_none() is False:
+            ok = any(isinstance(x, ast.Name) and x.id == idx for x in ast.walk(p.rec))
+            ctx.ob('C07-R5', load, 'record read derives from the requested index', ok,
+                   f'`{_strip(p.rec)[:80]}`' if ok else
+                   f'reads record `{_strip(p.rec)[:80]}`: a different record than the one located', line=p.hit.node.lineno)
+
+
+def rule_getitem(ctx, prog, m):
+    """C07-R5: __getitem__ answers from the cache entry of the requested index, loads that index on a miss and
+    reports an index that is still unknown as IndexError - decided per return / raise path."""
+    gi = m.func('TrajectoryStore.__getitem__')
+    key = gi.params[1]
+    try:
+        sym = Sym(prog, gi).run()
+        loads_ = Sym(prog, gi).run(lambda n: isinstance(n, ast.Call) and isinstance(n.func, ast.Attribute)
+                                   and n.func.attr == '_load_trajectory').hits
+    except SymUndecided as e:
+        ctx.undecided('C07-R5', gi, '__getitem__', str(e))
+    rets = [r for r in sym.returns if r[2] is not None]
+    ctx.floor('C07-R5', len(rets), 1, 'returns of __getitem__')
+    bad = []
+    for st, v, stmt in rets:
+        if isinstance(v, ast.Subscript) and recv_attr(v.value, CACHE_ATTR):
+            if not _is_name(v.slice, key):
+                bad.append((stmt, f'returns the cache entry of `{_strip(v.slice)}`, not of the requested `{key}`'))
+            elif st.fact(f'{key} in {norm(v.value)}') is not True:
+                ctx.undecided('C07-R5', gi, _strip(v), 'cache entry returned on a path that did not establish membership')
+        elif isinstance(v, ast.Call) and isinstance(v.func, ast.Attribute) and v.func.attr == 'get' \
+                and recv_attr(v.func.value, CACHE_ATTR) and v.args:
+            if not _is_name(v.args[0], key):
+                bad.append((stmt, f'returns the cache entry of `{_strip(v.args[0])}`, not of the requested `{key}`'))
+            elif st.fact(f'{norm(v)} is None') is False:
+                pass
+            elif st.fact(norm(v)) is True:
+                bad.append((stmt, f'presence in the cache is decided by the truth value of the trajectory (`if '
+                                  f'{_strip(v)}`): a trajectory without points is falsy, so a stored item is treated '
+                                  f'as missing (reloaded or reported out of range)'))
+            else:
+                ctx.undecided('C07-R5', gi, _strip(v), 'cache .get() returned without a None test')
+        else:
+            ctx.undecided('C07-R5', gi, _strip(v)[:80], 'returned value is not the cache entry of the requested index')
+    for h in loads_:
+        a = h.ev(h.node.args[0]) if h.node.args else None
+        if a is None or not _is_name(a, key):
+            bad.append((h.node, f'loads index `{_strip(a)}`, not the requested `{key}`'))
+    ctx.ob('C07-R5', gi, 'cache consulted, loaded and returned under one key', not bad,
+           f'{len(rets)} return path(s) return cache[{key}] after membership was established; {len(loads_)} load path(s) '
+           f'load `{key}`' if not bad else bad[0][1], line=(bad[0][0].lineno if bad else gi.node.lineno))
+    oor = [r for r in sym.raises if r[1] is not None and 'IndexError' in norm(r[1])]
+    ctx.ob('C07-R5', gi, 'unknown index reported as IndexError', bool(oor),
+           'raise IndexError present' if oor else 'an index beyond the end is not reported as out of range',
+           nontrivial=False)
+    for st, exc, stmt, _ in oor:
+        # the refusal must be decided by absence, not by the truth value of the trajectory
+        falsy = [k for k, p, e in st.facts if not p and isinstance(e, ast.Call) and isinstance(e.func, ast.Attribute)
+                 and e.func.attr == 'get' and recv_attr(e.func.value, CACHE_ATTR)]
+        if falsy:
+            ctx.ob('C07-R5', gi, 'out-of-range decided by absence from the cache', False,
+                   f'IndexError is raised when `{_strip(falsy[0])}` is falsy: a stored trajectory without points is '
+                   f'reported as out of range', line=stmt.lineno)
+
+
+# ---- R3: length ---------------------------------------------------------------------------------------------------
+
+def _mode_table(prog, m):
+    """per member of the store's file-mode enum: the values of the attributes that __init__ derives from `mode`"""
+    cls = m.classes.get('TrajectoryStore.FileMode')
+    init = m.func('TrajectoryStore.__init__')
+    if cls is None or 'mode' not in init.params:
+        return None
+    members = list(cls.class_assignments().keys())
+    table = {}
+    for mm in members:
+        env = {'mode': mm, 'self.mode': mm}
+        for x in members:
+            for pre in ('self.FileMode.', 'FileMode.', 'TrajectoryStore.FileMode.', 'cls.FileMode.'):
+                env[pre + x] = x
+        for t, st, how in stores_to(init.node):
+            if how in ('assign', 'ann') and isinstance(t, ast.Attribute) and isinstance(t.value, ast.Name) \
+                    and t.value.id == 'self' and st in init.node.body and st.value is not None:
+                try:
+                    env[f'self.{t.attr}'] = eval_pred(st.value, env)
+                except (ValueError, TypeError):
+                    pass
+        table[mm] = env
+    return table
+
+
+def _modes_allowed(table, facts) -> set[str]:
+    """members of the mode enum under which every (decidable) fact of the path holds"""
+    out = set()
+    for mm, env in table.items():
+        ok = True
+        for k, p, e in facts:
+            try:
+                v = eval_pred(ast.parse(_strip(e), mode='eval').body, env)
+            except (ValueError, TypeError, SyntaxError):
+                continue
+            if bool(v) != p:
+                ok = False
+                break
+        if ok:
+            out.add(mm)
+    return out
+
+
+def rule_len(ctx, prog, m, add):
+    """C07-R3: what __len__ returns on each path, and - when it answers from a stored count - that the add path
+    keeps that count fresh."""
+    ln = m.func('TrajectoryStore.__len__')
+    try:
+        sym = Sym(prog, ln).run()
+    except SymUndecided as e:
+        ctx.undecided('C07-R3', ln, '__len__', str(e))
+    rets = [r for r in sym.returns if r[2] is not None]
+    n_file = n_mem = 0
+    memo: dict[str, ast.stmt] = {}
+    for st, v, stmt in rets:
+        txt = _strip(v)
+        dims = [x for x in ast.walk(v) if isinstance(x, ast.Attribute) and x.attr == 'traj_dim']
+        if dims:
+            n_file += 1
+            one = [x for x in ast.walk(v) if isinstance(x, ast.Subscript) and x.value in dims
+                   and isinstance(x.slice, ast.Constant)]
+            agg = isinstance(v, ast.Call) and call_name(v) == 'sum' and v.args \
+                and isinstance(v.args[0], (ast.GeneratorExp, ast.ListComp)) and len(v.args[0].generators) == 1 \
+                and v.args[0].generators[0].iter in dims and not v.args[0].generators[0].ifs \
+                and isinstance(v.args[0].elt, ast.Call) and call_name(v.args[0].elt) == 'len' \
+                and _is_name(v.args[0].elt.args[0], assigned_names(v.args[0].generators[0].target)[0])
+            if not one and not agg:
+                ctx.undecided('C07-R3', ln, txt[:80], 'length expression is neither a sum over traj_dim nor a single element')
+            ctx.ob('C07-R3', ln, f'return {txt}', bool(agg) and not one,
+                   'sums the trajectory dimension of every file of the field set' if agg and not one
+                   else 'length looks at one file only: wrong for merged stores', line=stmt.lineno)
+        elif isinstance(v, ast.Call) and call_name(v) == 'len' and len(v.args) == 1 and recv_attr(v.args[0], CACHE_ATTR):
+            n_mem += 1
+        elif isinstance(v, ast.Attribute) and isinstance(v.value, ast.Name) and _base_id(v.value.id) == 'self':
+            memo.setdefault(v.attr, stmt)
+        else:
+            ctx.undecided('C07-R3', ln, txt[:80], 'returned length is neither the file dimension, the cache size nor a stored count')
+    if not n_file and not memo:
+        ctx.undecided('C07-R3', ln, 'file-backed length', 'no return that measures the files')
+    ctx.ob('C07-R3', ln, 'in-memory length is the cache size', bool(n_mem),
+           'len(self._trajectories) when not linked' if n_mem else 'no in-memory length', nontrivial=False)
+    if not memo:
+        return
+    # a stored count: freshness (cf. R1).  Every successful add changes the length, so the add path must update or
+    # clear the stored count - unless the count is only ever stored in sessions that cannot add.
+    add_path = closure(prog, [add], stop={ln.qualname})
+    table = _mode_table(prog, m)
+    for attr, stmt in memo.items():
+        fresh = [(fn, s) for fn in add_path if fn != ln for t, s, how in stores_to(fn.node)
+                 if isinstance(t, ast.Attribute) and t.attr == attr and not _in_reraising_handler(s)]
+        setters = []
+        for fn in m.functions.values():
+            if fn in add_path and fn != ln:
+                continue
+            for t, s, how in stores_to(fn.node):
+                if isinstance(t, ast.Attribute) and t.attr == attr and isinstance(t.value, ast.Name) \
+                        and not (isinstance(getattr(s, 'value', None), ast.Constant) and s.value.value is None):
+                    setters.append((fn, s))
+        if fresh:
+            ctx.ob('C07-R3', ln, f'stored count self.{attr} kept fresh by add', True,
+                   f'{fresh[0][0].qualname} stores self.{attr} on the add path', line=stmt.lineno)
+            continue
+        if not setters:
+            ctx.undecided('C07-R3', ln, f'self.{attr}', 'length answered from an attribute that nothing stores a count into')
+        writable = None
+        if table is not None:
+            try:
+                refusing = [r for r in Sym(prog, add).run().raises if r[3].fi == add]
+            except SymUndecided:
+                refusing = []
+            writable = set(table)
+            for st, exc, s, _ in refusing:
+                if st.facts and all(_decidable(table, f) for f in st.facts):
+                    writable -= _modes_allowed(table, st.facts)
+        stale_modes: set[str] | None = set()
+        for fn, s in setters:
+            allowed = None
+            if table is not None:
+                try:
+                    hits = Sym(prog, fn).run(lambda n, s=s: n is s).hits
+                except SymUndecided:
+                    hits = []
+                if hits:
+                    allowed = set()
+                    for h in hits:
+                        allowed |= _modes_allowed(table, h.state.facts)
+            if allowed is None or writable is None:
+                stale_modes = None
+                break
+            stale_modes |= allowed & writable
+        if stale_modes is not None and not stale_modes:
+            ctx.ob('C07-R3', ln, f'stored count self.{attr} only in sessions that cannot add', True,
+                   'the count is stored only under modes in which add() refuses', line=stmt.lineno)
+            continue
+        where = ', '.join(sorted({fn.qualname for fn, _ in setters}))
+        ctx.ob('C07-R3', ln, f'stored count self.{attr} kept fresh by add', False,
+               f'__len__ answers from the stored count self.{attr} (set in {where}'
+               + (f'; possible in mode(s) {", ".join(sorted(stale_modes))} in which add() is allowed' if stale_modes else '')
+               + ') and nothing on the add path (add → _write_trajectory → _write_data) updates or clears it: once the '
+               'count was stored, len(store) stays at the old value after further additions and iteration stops early',
+               line=setters[0][1].lineno)
+
+
+def _decidable(table, fact) -> bool:
+    env = next(iter(table.values()))
+    try:
+        eval_pred(ast.parse(_strip(fact[2]), mode='eval').body, env)
+        return True
+    except (ValueError, TypeError, SyntaxError):
+        return False
+
+
+# ---- R6: iteration -----------------------------------------------------------------------------------------------
+
+def _index_walk(e: ast.expr, recv: str) -> bool | None:
+    """is e a comprehension / generator that yields recv[i] for i in range(len(recv))?  None: not that form"""
+    def over_indices(it):
+        return isinstance(it, ast.Call) and call_name(it) == 'range' and len(it.args) == 1 \
+            and isinstance(it.args[0], ast.Call) and call_name(it.args[0]) == 'len' \
+            and len(it.args[0].args) == 1 and _is_name(it.args[0].args[0], recv)
+    if isinstance(e, ast.Call) and call_name(e) == 'map' and len(e.args) == 2 and isinstance(e.args[0], ast.Attribute) \
+            and e.args[0].attr == '__getitem__' and _is_name(e.args[0].value, recv) and over_indices(e.args[1]):
+        return True
+    if not isinstance(e, (ast.GeneratorExp, ast.ListComp)) or len(e.generators) != 1:
+        return None
+    g = e.generators[0]
+    if g.ifs or not isinstance(g.target, ast.Name):
+        return None
+    it = g.iter
+    rng = isinstance(it, ast.Call) and call_name(it) == 'range' and len(it.args) == 1 \
+        and isinstance(it.args[0], ast.Call) and call_name(it.args[0]) == 'len' \
+        and len(it.args[0].args) == 1 and _is_name(it.args[0].args[0], recv)
+    elt = isinstance(e.elt, ast.Subscript) and _is_name(e.elt.value, recv) and _is_name(e.elt.slice, g.target.id)
+    return True if rng and elt else None
+
+
+def _cache_source(e: ast.expr) -> ast.expr | None:
+    """the cache mapping, if the elements e iterates over are taken from it in the mapping's own order"""
+    while True:
+        if recv_attr(e, CACHE_ATTR):
+            return e
+        if isinstance(e, ast.Call):
+            cn = call_name(e)
+            if cn in ('iter', 'list', 'tuple', 'enumerate', 'reversed') and e.args:
+                e = e.args[0]
+                continue
+            if isinstance(e.func, ast.Attribute) and e.func.attr in ('values', 'items', 'keys', '__iter__', 'copy'):
+                e = e.func.value
+                continue
+            if cn in ('map', 'filter', 'zip', 'itertools.chain') and e.args:
+                e = e.args[-1]
+                continue
+            return None
+        if isinstance(e, (ast.GeneratorExp, ast.ListComp)) and e.generators:
+            e = e.generators[0].iter
+            continue
+        return None
+
+
+CACHE_ORDER_WHY = ('iteration hands out the cache mapping: its order is the order in which the trajectories were put into '
+                   'the cache (read order after a reopen, with every access moving nothing back), and it holds only the '
+                   'resident ones - not store[0], store[1], … in index order')
+
+
+def rule_iter(ctx, prog, m):
+    """C07-R6: iteration yields store[0], store[1], … - every iterator __iter__ can return is driven by an index that
+    starts at 0, is read through store[index], advances by one and stops at len(store)."""
+    it0 = m.func('TrajectoryStore.__iter__')
+    recv = it0.params[0]
+    if any(isinstance(x, (ast.Yield, ast.YieldFrom)) for x in walk_no_nested(it0.node)):
+        return _generator_iter(ctx, it0, recv)
+    try:
+        sym = Sym(prog, it0).run()
+    except SymUndecided as e:
+        ctx.undecided('C07-R6', it0, '__iter__', str(e))
+    rets = [r for r in sym.returns if r[2] is not None]
+    ctx.floor('C07-R6', len(rets), 1, 'returns of __iter__')
+    seen = set()
+    for st, v, stmt in rets:
+        if _is_name(v, recv):
+            ctx.ob('C07-R6', it0, '__iter__ returns a fresh iterator', False,
+                   'the store is its own iterator: the position is kept on the store, so two overlapping iterations '
+                   '(nested loops, zip(store, store), a partly consumed iterator) share and reset one cursor and no longer '
+                   'yield the trajectories in insertion order', line=stmt.lineno)
+            continue
+        src = _cache_source(v)
+        if src is not None:
+            ctx.ob('C07-R6', it0, f'__iter__ returns {_strip(v)}', False, CACHE_ORDER_WHY, line=stmt.lineno)
+            continue
+        inner = v.args[0] if isinstance(v, ast.Call) and call_name(v) == 'iter' and len(v.args) == 1 else v
+        if _index_walk(inner, recv):
+            ctx.ob('C07-R6', it0, f'__iter__ returns {_strip(v)[:60]}', True, 'store[i] for i in range(len(store))',
+                   line=stmt.lineno)
+            continue
+        itc = resolve_class_call(prog, it0, v) if isinstance(v, ast.Call) else None
+        if itc is None:
+            ctx.undecided('C07-R6', it0, _strip(v)[:80], 'iterator class not found')
+        pos = [i for i, a in enumerate(v.args) if _is_name(a, recv)]
+        kws = [k.arg for k in v.keywords if _is_name(k.value, recv)]
+        if len(pos) + len(kws) != 1:
+            ctx.undecided('C07-R6', it0, _strip(v)[:80], 'the iterator is not constructed over this store')
+        ctx.ob('C07-R6', it0, '__iter__ hands out a fresh iterator over this store', True, _strip(v), nontrivial=False,
+               line=stmt.lineno)
+        if itc.name not in seen:
+            seen.add(itc.name)
+            _iterator_class(ctx, prog, m, itc, pos[0] if pos else kws[0])
+
+
+def _generator_iter(ctx, it0, recv):
+    ys = [x for x in walk_no_nested(it0.node) if isinstance(x, (ast.Yield, ast.YieldFrom))]
+    for y in ys:
+        if isinstance(y, ast.YieldFrom):
+            src = _cache_source(y.value)
+            if src is not None:
+                ctx.ob('C07-R6', it0, f'yield from {norm(y.value)}', False, CACHE_ORDER_WHY, line=y.lineno)
+                continue
+            if _index_walk(y.value, recv):
+                ctx.ob('C07-R6', it0, f'yield from {norm(y.value)[:60]}', True, 'store[i] for i in range(len(store))',
+                       line=y.lineno)
+                continue
+            ctx.undecided('C07-R6', it0, norm(y.value)[:80], 'generator form not recognised')
+        loop = next((a for a in ancestors(y) if isinstance(a, (ast.For, ast.While))), None)
+        if isinstance(loop, ast.For):
+            src = _cache_source(loop.iter)
+            if src is not None:
+                ctx.ob('C07-R6', it0, f'for … in {norm(loop.iter)}: yield', False, CACHE_ORDER_WHY, line=loop.lineno)
+                continue
+            probe = ast.GeneratorExp(elt=y.value, generators=[ast.comprehension(target=loop.target, iter=loop.iter,
+                                                                               ifs=[], is_async=0)])
+            if y.value is not None and _index_walk(probe, recv) and not guards_of(stmt_of(y), stop=loop):
+                ctx.ob('C07-R6', it0, f'for {norm(loop.target)} in {norm(loop.iter)}: yield {norm(y.value)}', True,
+                       'store[i] for i in range(len(store))', line=loop.lineno)
+                continue
+        ctx.undecided('C07-R6', it0, norm(y)[:80], 'generator form not recognised')
+
+
+def _stops_on_index_error(nx) -> bool:
+    """`try: item = store[cursor] … except IndexError: raise StopIteration`: the end is the store's own IndexError"""
+    for t in walk_no_nested(nx.node):
+        if isinstance(t, ast.Try):
+            for h in t.handlers:
+                if h.type is not None and 'IndexError' in norm(h.type) and any(
+                        isinstance(x, ast.Raise) and x.exc is not None and 'StopIteration' in norm(x.exc) for x in h.body):
+                    return True
+    return False
+
+
+def _iterator_class(ctx, prog, m, itc, store_arg):
+    """the cursor protocol of a separate iterator class, decided per path of __init__ and __next__"""
+    nx, ini = itc.methods.get('__next__'), itc.methods.get('__init__')
+    where = (m.relpath, itc.name)
+    if nx is None or ini is None:
+        ctx.undecided('C07-R6', where, '__next__', 'iterator methods not found')
+    r = ini.params[0]
+    sparam = store_arg if isinstance(store_arg, str) else (ini.params[1 + store_arg] if len(ini.params) > 1 + store_arg else None)
+    try:
+        s0 = Sym(prog, ini).run()
+        s1 = Sym(prog, nx).run()
+    except SymUndecided as e:
+        ctx.undecided('C07-R6', where, '__next__', str(e))
+    fields: dict[str, set[str]] = {}
+    for st, v, stmt in s0.returns:
+        for k, val in st.env.items():
+            if k.startswith(r + '.'):
+                fields.setdefault(k[len(r) + 1:], set()).add(norm(val))
+    store_f = [a for a, vs in fields.items() if vs == {sparam}]
+    if len(store_f) != 1:
+        ctx.undecided('C07-R6', where, '__init__', 'cannot tell which field holds the store')
+    S = ast.Attribute(value=ast.Name(id=nx.params[0], ctx=ast.Load()), attr=store_f[0], ctx=ast.Load())
+    rets = [x for x in s1.returns if x[2] is not None]
+    if not rets:
+        ctx.undecided('C07-R6', nx, '__next__', 'no return')
+    problems, undec = [], []
+    cursors = set()
+    for st, v, stmt in rets:
+        if isinstance(v, ast.Call) and isinstance(v.func, ast.Attribute) and v.func.attr == '__getitem__' and len(v.args) == 1:
+            v = ast.Subscript(value=v.func.value, slice=v.args[0], ctx=ast.Load())
+        if not (isinstance(v, ast.Subscript) and norm(v.value) == norm(S)):
+            undec.append(f'`{_strip(v)[:60]}` is not an element of the store read by index')
+            continue
+        cur = [x for x in ast.walk(v.slice) if isinstance(x, ast.Attribute) and isinstance(x.value, ast.Name)
+               and x.value.id == nx.params[0]]
+        if len({norm(c) for c in cur}) != 1:
+            undec.append(f'cannot tell the cursor in `{_strip(v)}`')
+            continue
+        C = cur[0]
+        cursors.add(C.attr)
+        d = _diff(v.slice, C)
+        if d is None:
+            undec.append(f'index `{_strip(v.slice)}` is not the cursor plus a constant')
+        elif d != 0:
+            problems.append((stmt, f'yields store[cursor{d:+}]: the item at the cursor is skipped / repeated'))
+        new = st.env.get(f'{nx.params[0]}.{C.attr}')
+        if new is None:
+            problems.append((stmt, 'the cursor is not advanced on the path that yields an item'))
+        else:
+            d = _diff(new, C)
+            if d is None:
+                undec.append(f'cursor becomes `{_strip(new)}`')
+            elif d != 1:
+                problems.append((stmt, f'the cursor advances by {d} per item, not by one'))
+        bound = f'{norm(C)} < len({norm(S)})'
+        # (a cursor that starts at 0 and advances by one never passes len: `!= len` bounds it as well)
+        if st.fact(bound) is not True and not st.holds(f'{norm(C)} == len({norm(S)})', False) \
+                and not _stops_on_index_error(nx):
+            if st.fact(f'len({norm(S)}) < {norm(C)}') is False:
+                problems.append((stmt, 'an item is read while cursor <= len(store): one read past the end'))
+            else:
+                undec.append(f'no `cursor < len(store)` established before `{_strip(v)}`')
+    stops = [x for x in s1.raises if x[1] is not None and 'StopIteration' in norm(x[1])]
+    if not stops:
+        undec.append('no path raises StopIteration')
+    for st, exc, stmt, _ in stops:
+        if any(isinstance(a, ast.ExceptHandler) and a.type is not None and 'IndexError' in norm(a.type)
+               for a in ancestors(stmt)):
+            continue        # the store itself reported the cursor as out of range
+        for c in cursors:
+            if st.fact(f'{nx.params[0]}.{c} < len({norm(S)})') is not False \
+                    and not st.holds(f'{nx.params[0]}.{c} == len({norm(S)})', True):
+                undec.append('StopIteration raised on a path that did not establish cursor >= len(store)')
+    for c in cursors:
+        start = fields.get(c, set())
+        if start != {'0'}:
+            if len(start) == 1 and all(_nf(ast.parse(x, mode='eval').body) is not None
+                                       and _nf(ast.parse(x, mode='eval').body).is_const() for x in start):
+                problems.append((ini.node, f'the cursor starts at {next(iter(start))}, not at 0'))
+            else:
+                undec.append(f'cursor start {sorted(start)}')
+    if not problems and undec:
+        ctx.undecided('C07-R6', nx, '__next__', undec[0])
+    ok = not problems
+    ctx.ob('C07-R6', nx, 'iteration yields store[0], store[1], … while index < len(store)', ok,
+           'starts at 0, reads store[index], then advances by one, stops at len' if ok else
+           'iteration does not walk the indices 0..len-1 in order: ' + problems[0][1],
+           line=(problems[0][0].lineno if problems else nx.node.lineno))
+
+
+def rule_save(ctx, prog, m):
+    """C07-R6 (save): the number of trajectories to persist is the length measured *before* the files are created
+    (afterwards __len__ measures the new, empty files), and the write loop writes index i at position i for
+    i = 0 .. n-1."""
+    sv = m.func('TrajectoryStore.save')
+    recv = sv.params[0]
+    wl = [n for n in walk_no_nested(sv.node) if isinstance(n, (ast.For, ast.AsyncFor))
+          and any(call_name(c).endswith('._write_trajectory') for c in calls_in(n))]
+    if len(wl) != 1:
+        ctx.undecided('C07-R6', sv, 'write loop', f'{len(wl)} loops that write trajectories')
+    lp = wl[0]
+    it = lp.iter
+    rng = isinstance(it, ast.Call) and call_name(it) == 'range' and not it.keywords and (
+        len(it.args) == 1 or (len(it.args) == 2 and isinstance(it.args[0], ast.Constant) and it.args[0].value == 0))
+    writes = [c for c in calls_in(lp) if call_name(c).endswith('._write_trajectory')]
+    own = isinstance(lp.target, ast.Name) and all(len(c.args) == 1 and _is_name(c.args[0], lp.target.id) for c in writes) \
+        and all(stmt_of(c) in lp.body for c in writes)
+    if not rng:
+        ctx.undecided('C07-R6', sv, norm(it)[:60], 'the write loop does not run over range(n)')
+    ctx.ob('C07-R6', sv, 'save writes indices 0 .. n-1, each at its own index', own,
+           f'for {norm(lp.target)} in {norm(it)}: _write_trajectory({norm(lp.target)})' if own else
+           'save does not write every cached trajectory at its own index', line=lp.lineno)
+    n_expr = it.args[-1]
+    g2 = CFG(sv.node)
+    normal = lambda a, b, lab: lab != 'e'      # noqa: E731
+    dom2 = g2.dominators(edge_ok=normal)
+    cr = [n for n in g2.nodes if n.stmt is not None and n.kind == 'stmt'
+          and any(call_name(c) == f'{recv}._create' for c in calls_in(n.stmt))]
+    if not cr:
+        ctx.undecided('C07-R6', sv, 'save', 'no call that creates the files')
+
+    def is_len_self(e):
+        return isinstance(e, ast.Call) and ((call_name(e) == 'len' and len(e.args) == 1 and _is_name(e.args[0], recv))
+                                            or call_name(e) == f'{recv}.__len__')
+    if is_len_self(n_expr):
+        ok = False      # evaluated when the loop starts: after the files were created
+    elif isinstance(n_expr, ast.Name):
+        d = single_def_value(sv.node, n_expr.id)
+        if d is None or not is_len_self(d):
+            ctx.undecided('C07-R6', sv, norm(n_expr), 'the number of trajectories to save is not a single `len(self)`')
+        dn = g2.nodes_of(stmt_of(d))
+        ok = bool(dn) and all(dn[0] in dom2.get(c.id, set()) for c in cr)
+    else:
+        ctx.undecided('C07-R6', sv, norm(n_expr)[:60], 'the number of trajectories to save is not recognised')
+    ctx.ob('C07-R6', sv, 'save counts the in-memory trajectories before the files exist', ok,
+           'len(self) taken before _create() switches the length source to the (empty) file' if ok else
+           'save measures the store after linking it to the new, empty files: nothing (or the wrong number) is written')
+
+
+FLAG = 'exception_on_eviction'
+
+
+def rule_eviction(ctx, prog, m):
+    """C07-R4, decided per site: the cache refuses before it evicts; the refusal flag is switched on exactly for a
+    store without a base file (whether by a guarded store, by storing the condition itself or through the cache's
+    constructor) and switched off only by `save`, after every trajectory was written."""
+    cache = m.cls('TrajectoryCache')
+    pop, cinit = cache.methods.get('popitem'), cache.methods.get('__init__')
+    if pop is None:
+        ctx.undecided('C07-R4', (m.relpath, 'TrajectoryCache'), 'popitem', 'method not found')
+    r = pop.params[0]
+    try:
+        ps = Sym(prog, pop).run(lambda n: isinstance(n, ast.Call) and isinstance(n.func, ast.Attribute)
+                                and n.func.attr == 'popitem')
+    except SymUndecided as e:
+        ctx.undecided('C07-R4', pop, 'popitem', str(e))
+    ctx.floor('C07-R4', len(ps.hits), 1, 'evictions (calls of the base class popitem)')
+    okp = all(h.state.fact(f'{r}.{FLAG}') is False for h in ps.hits) \
+        and any(st.fact(f'{r}.{FLAG}') is True for st, exc, stmt, _ in ps.raises)
+    ctx.ob('C07-R4', pop, 'refusal precedes the eviction', okp,
+           'every path to the base-class popitem() has seen the flag unset; the flag set raises' if okp else
+           'the cache can evict from an in-memory store (the trajectory would be lost): an entry is removed on a path '
+           'that did not test the refusal flag first')
+
+    # ---- where the flag gets its value ---------------------------------------------------------------------------
+    sinit = m.func('TrajectoryStore.__init__')
+    sites = []      # (function, node to stop at, value expression, how)
+    for fn in m.functions.values():
+        for t, st, how in stores_to(fn.node):
+            if isinstance(t, ast.Attribute) and t.attr == FLAG and how in ('assign', 'ann', 'aug'):
+                sites.append((fn, st, st.value, 'store'))
+        for c in calls_in(fn.node):
+            k = resolve_class_call(prog, fn, c)
+            if k is not None and k.name == cache.name:
+                v = kwarg(c, FLAG)
+                if v is not None:
+                    sites.append((fn, c, v, 'constructor'))
+    ctx.floor('C07-R4', len(sites), 3, 'stores of exception_on_eviction')
+    armed = False
+    for fn, node, val, how in sites:
+        try:
+            hits = Sym(prog, fn).run(lambda n, node=node: n is node).hits
+        except SymUndecided as e:
+            ctx.undecided('C07-R4', fn, norm(node)[:60], str(e))
+        if not hits:
+            ctx.undecided('C07-R4', fn, norm(node)[:60], 'site not reached by the path enumeration')
+        what = f'{norm(node)[:70]}' if how == 'store' else f'{cache.name}(…, {FLAG}={norm(val)[:40]})'
+        verdicts = []
+        for h in hits:
+            v = h.ev(val)
+            no_base = canon_fact(h.ev(ast.parse(f'{fn.params[0]}.base_file is None', mode='eval').body), True) \
+                if fn.params else None
+            in_memory = h.state.fact(no_base[0]) if no_base else None      # True: this path has no base file
+            if fn.cls is cache and fn.name == '__init__':
+                # default / constructor parameter
+                if isinstance(v, ast.Constant) and v.value is False:
+                    ok, why = True, 'default'
+                elif isinstance(v, ast.Name) and v.id in fn.params:
+                    d = _param_default(fn, v.id)
+                    ok = isinstance(d, ast.Constant) and d.value is False
+                    why = f'constructor parameter `{v.id}` (default False)' if ok else \
+                        f'constructor parameter `{v.id}` does not default to False'
+                else:
+                    ctx.undecided('C07-R4', fn, what, 'initial value of the flag not recognised')
+            elif isinstance(v, ast.Constant) and v.value is True:
+                ok = fn == sinit and in_memory is True
+                armed = armed or ok
+                why = 'set exactly when the store has no base file' if ok else \
+                    'flag set under a different condition than "no base file"'
+            elif isinstance(v, ast.Constant) and v.value is False:
+                if fn == sinit and in_memory is False:
+                    ok, why = True, 'a store with a base file may evict'
+                elif fn.qualname == 'TrajectoryStore.save':
+                    g = CFG(fn.node)
+                    mine = g.nodes_of(stmt_of(node))
+                    writes = [n.id for n in g.nodes if n.stmt is not None and n.kind == 'stmt'
+                              and any(call_name(c).endswith('_write_trajectory') for c in calls_in(n.stmt))]
+                    normal = lambda a, b, lab: lab != 'e'      # noqa: E731
+                    ok = bool(mine) and bool(writes) and not any(g.reaches(x, w, edge_ok=normal) for x in mine for w in writes)
+                    why = 'cleared after every trajectory was written' if ok else \
+                        'evictions are allowed before the trajectories were written to the new file'
+                else:
+                    ok, why = False, 'eviction refusal cleared outside save()'
+            else:
+                k = canon_fact(v, True)
+                if no_base is not None and k[0] == no_base[0] and fn == sinit:
+                    ok = k[1] == no_base[1]
+                    armed = armed or ok
+                    why = 'the flag is the condition "no base file" itself' if ok else \
+                        'the flag is set exactly when the store *has* a base file'
+                else:
+                    ctx.undecided('C07-R4', fn, what, f'flag value `{_strip(v)[:60]}` not recognised')
+            verdicts.append((ok, why))
+        ok, why = next((v for v in verdicts if not v[0]), verdicts[0])
+        ctx.ob('C07-R4', fn, what, ok, why, line=node.lineno)
+    ctx.ob('C07-R4', sinit, 'an in-memory store refuses evictions', armed,
+           'the constructor switches the refusal on when there is no base file' if armed else
+           'nothing switches the eviction refusal on for a store without a base file', nontrivial=False)
+
+
+def _param_default(fn, name: str):
+    a = fn.node.args
+    pos = a.posonlyargs + a.args
+    for p, d in zip(reversed(pos), reversed(a.defaults)):
+        if p.arg == name:
+            return d
+    for p, d in zip(a.kwonlyargs, a.kw_defaults):
+        if p.arg == name:
+            return d
+    return None
 
 
 # ======================================================================================================
@@ -406,6 +1037,9 @@ _PURE_METHODS = {'keys', 'values', 'items', 'get', 'copy', 'index', 'count', 'lo
                  'startswith', 'endswith', 'format', 'join', 'bisect_left', 'bisect_right', 'bisect', 'accumulate'}
 
 
+_CONSTRUCTED = (ast.List, ast.Dict, ast.Set, ast.Tuple, ast.ListComp, ast.DictComp, ast.SetComp, ast.Call)
+
+
 class SymUndecided(Exception):
     pass
 
@@ -422,20 +1056,60 @@ def chain_root(e: ast.AST) -> ast.Name | None:
 
 def mentions_heap(e: ast.AST, root: str) -> bool:
     """does e read heap state reachable from the variable `root` (attribute / element / call argument / container
-    membership)?  A bare use of the variable itself is not a heap read."""
-    for n in ast.walk(e):
-        if isinstance(n, (ast.Attribute, ast.Subscript)):
-            r = chain_root(n)
-            if r is not None and _base_id(r.id) == root:
-                return True
-        elif isinstance(n, ast.Call):
-            if any(isinstance(x, ast.Name) and _base_id(x.id) == root for a in list(n.args) + [k.value for k in n.keywords]
-                   for x in ast.walk(a)):
-                return True
-        elif isinstance(n, ast.Compare) and any(isinstance(o, (ast.In, ast.NotIn)) for o in n.ops):
-            if any(isinstance(x, ast.Name) and _base_id(x.id) == root for c in n.comparators for x in ast.walk(c)):
-                return True
-    return False
+    membership)?  A bare use of the variable itself is not a heap read; a comprehension or lambda variable of the
+    same name is a different variable."""
+    def free_names(n, bound):
+        if isinstance(n, (ast.ListComp, ast.SetComp, ast.GeneratorExp, ast.DictComp)):
+            inner = set(bound)
+            for g in n.generators:
+                inner |= set(assigned_names(g.target))
+            for i, g in enumerate(n.generators):
+                yield from free_names(g.iter, bound if i == 0 else inner)
+                for x in g.ifs:
+                    yield from free_names(x, inner)
+            for x in ([n.key, n.value] if isinstance(n, ast.DictComp) else [n.elt]):
+                yield from free_names(x, inner)
+            return
+        if isinstance(n, ast.Lambda):
+            a = n.args
+            yield from free_names(n.body, bound | {x.arg for x in a.posonlyargs + a.args + a.kwonlyargs})
+            return
+        if isinstance(n, ast.Name):
+            if n.id not in bound:
+                yield n
+            return
+        for c in ast.iter_child_nodes(n):
+            yield from free_names(c, bound)
+
+    def reads(n, bound) -> bool:
+        if isinstance(n, (ast.ListComp, ast.SetComp, ast.GeneratorExp, ast.DictComp)):
+            inner = set(bound)
+            for g in n.generators:
+                inner |= set(assigned_names(g.target))
+            parts = []
+            for i, g in enumerate(n.generators):
+                parts.append((g.iter, bound if i == 0 else inner))
+                parts += [(x, inner) for x in g.ifs]
+            parts += [(x, inner) for x in ([n.key, n.value] if isinstance(n, ast.DictComp) else [n.elt])]
+            return any(reads(x, b) for x, b in parts)
+        if isinstance(n, ast.Lambda):
+            a = n.args
+            return reads(n.body, bound | {x.arg for x in a.posonlyargs + a.args + a.kwonlyargs})
+        if root not in bound:
+            if isinstance(n, (ast.Attribute, ast.Subscript)):
+                r = chain_root(n)
+                if r is not None and _base_id(r.id) == root:
+                    return True
+            elif isinstance(n, ast.Call):
+                if any(_base_id(x.id) == root for a in list(n.args) + [k.value for k in n.keywords]
+                       for x in free_names(a, bound)):
+                    return True
+            elif isinstance(n, ast.Compare) and any(isinstance(o, (ast.In, ast.NotIn)) for o in n.ops):
+                if any(_base_id(x.id) == root for c in n.comparators for x in free_names(c, bound)):
+                    return True
+        return any(reads(c, bound) for c in ast.iter_child_nodes(n))
+
+    return reads(e, frozenset())
 
 
 def canon_fact(e: ast.expr, pol: bool = True) -> tuple[str, bool, ast.expr]:
@@ -521,10 +1195,15 @@ class Sym:
         self.raises: list = parent.raises if parent else []       # (state, exc expr | None, stmt, sym)
         self.returns: list[tuple[SymState, ast.expr | None, ast.stmt | None]] = []
         self.target = parent.target if parent else None
+        self.origin: dict[str, object] = parent.origin if parent else {}      # unknown-value symbol -> function
+        self.opaque: set[str] = parent.opaque if parent else set()            # helpers that are not entered
         self.recv = None
         if fi.cls is not None and fi.params and not any(d.split('.')[-1] == 'staticmethod' for d in fi.decorators()):
             self.recv = fi.params[0]
-        self._tag = 0
+        self._locals = set(fi.params) | {x.id for x in walk_no_nested(fi.node) if isinstance(x, ast.Name)
+                                         and isinstance(x.ctx, (ast.Store, ast.Del))}
+        if parent is not None:
+            self._locals |= parent._locals
 
     # ---- driver ----------------------------------------------------------------------------------------
     def run(self, target=None, init: SymState | None = None) -> 'Sym':
@@ -689,22 +1368,27 @@ class Sym:
         return True
 
     # ---- heap -----------------------------------------------------------------------------------------
-    def _fresh(self, name: str, where) -> ast.Name:
-        self._tag += 1
-        return ast.Name(id=f'{name}@{getattr(where, "lineno", 0)}', ctx=ast.Load())
+    def _fresh(self, name: str, where, suffix: str = '') -> ast.Name:
+        """an unknown value: `<variable>@<line of the construct that made it unknown>`"""
+        nid = f'{name}@{getattr(where, "lineno", 0)}{suffix}'
+        self.origin[nid] = self.fi
+        return ast.Name(id=nid, ctx=ast.Load())
 
-    def clobber(self, st: SymState, roots, where=None):
-        """heap state reachable from the variables `roots` may have changed"""
+    def clobber(self, st: SymState, roots, where=None, env: bool = True):
+        """heap state reachable from the variables `roots` may have changed: facts that read it are forgotten and
+        later reads get a new epoch; with env=True (the object a method was called on) the values computed from it
+        are unknown as well"""
         roots = {_base_id(r) for r in roots}
         if not roots:
             return
         st.facts = [f for f in st.facts if not any(mentions_heap(f[2], r) for r in roots)]
-        for k, v in list(st.env.items()):
-            if any(mentions_heap(v, r) for r in roots) or ('.' in k and k.split('.')[0] in roots):
-                st.env[k] = self._fresh(k, where)
+        if env:
+            for k, v in list(st.env.items()):
+                if any(mentions_heap(v, r) for r in roots) or ('.' in k and k.split('.')[0] in roots):
+                    st.env[k] = self._fresh(k, where)
+            st.clob |= roots
         for r in roots:
             st.epoch[r] = st.epoch.get(r, 0) + 1
-        st.clob |= roots
 
     def clobber_text(self, st: SymState, pred):
         st.facts = [f for f in st.facts if not any(pred(x) for x in ast.walk(f[2]))]
@@ -729,17 +1413,23 @@ class Sym:
         for c in [x for x in walk_no_nested(e, include_lambda=False) if isinstance(x, ast.Call)]:
             if c is skip or self._pure_call(c):
                 continue
-            parts = list(c.args) + [k.value for k in c.keywords]
+            def roots_of(parts):
+                out = set()
+                for p in parts:
+                    out |= {_base_id(x.id) for x in ast.walk(self.ev(p, st.fork())) if isinstance(x, ast.Name)}
+                return out
+
+            # only objects this function can reach through its own variables are considered changed: a call on a
+            # class or a module (`Cls.open(...)`, `os.rename(...)`) does not alter what local values denote
+            recv = (roots_of([c.func.value]) if isinstance(c.func, ast.Attribute) else set()) & self._locals
+            args = (roots_of(list(c.args) + [k.value for k in c.keywords]) & self._locals) - recv
+            self.clobber(st, recv, c, env=True)
+            self.clobber(st, args, c, env=False)
             if isinstance(c.func, ast.Attribute):
-                parts.append(c.func.value)
-            roots = set()
-            for p in parts:
-                try:
-                    v = self.ev(p, st.fork())
-                except RecursionError:      # pragma: no cover
-                    v = p
-                roots |= {x.id for x in ast.walk(v) if isinstance(x, ast.Name)}
-            self.clobber(st, roots, c)
+                # a method called on a container this path built itself (`acc = []` … `acc.append(x)`)
+                r = chain_root(c.func.value)
+                if r is not None and isinstance(st.env.get(r.id), _CONSTRUCTED):
+                    st.env[r.id] = self._fresh(r.id, c)
 
     # ---- calls of helpers of the same module ------------------------------------------------------------
     def _summarisable(self, c: ast.Call):
@@ -749,7 +1439,11 @@ class Sym:
             callee = resolve_call(self.prog, self.fi, c)
         except Exception:
             return None
-        if callee is None or callee.module is not self.fi.module or callee == self.fi:
+        if callee is None or callee.module is not self.fi.module or callee == self.fi or callee.name in self.opaque:
+            return None
+        # only private helpers and nested functions are looked through: the public methods are the vocabulary
+        # in which the rules speak (`TrajectoryStore.open(...)`, `len(store)`, `store[i]`)
+        if not ((callee.name.startswith('_') and not callee.name.startswith('__')) or '<locals>' in callee.qualname):
             return None
         if any(isinstance(x, (ast.Yield, ast.YieldFrom, ast.Await)) for x in walk_no_nested(callee.node)):
             return None
@@ -762,8 +1456,6 @@ class Sym:
 
     def _call(self, callee, c: ast.Call, st: SymState):
         a = callee.node.args
-        if a.vararg or a.kwarg:
-            return None
         pos = [x.arg for x in a.posonlyargs + a.args]
         defaults = dict(zip(reversed(pos), reversed(a.defaults)))
         for k, d in zip(a.kwonlyargs, a.kw_defaults):
@@ -786,14 +1478,24 @@ class Sym:
             if not same_recv:
                 bind[pos[0]] = rv
             pos = pos[1:]
-        if len(c.args) > len(pos):
+        if len(c.args) > len(pos) and not a.vararg:
             return None
         for p, x in zip(pos, c.args):
             bind[p] = self.ev(x, st)
+        if a.vararg:
+            bind[a.vararg.arg] = ast.Tuple(elts=[self.ev(x, st) for x in c.args[len(pos):]], ctx=ast.Load())
+        extra = []
         for k in c.keywords:
-            if k.arg not in names or k.arg in bind:
+            if k.arg in bind:
                 return None
+            if k.arg not in names:
+                if not a.kwarg:
+                    return None
+                extra.append((k.arg, self.ev(k.value, st)))
+                continue
             bind[k.arg] = self.ev(k.value, st)
+        if a.kwarg:
+            bind[a.kwarg.arg] = ast.Dict(keys=[ast.Constant(value=k) for k, _ in extra], values=[v for _, v in extra])
         for p in names:
             if p not in bind:
                 if p not in defaults:
@@ -834,6 +1536,16 @@ class Sym:
         """[(state, value)] of evaluating e: one per return path of a summarised helper, else one"""
         if e is None:
             return [(st, ast.Constant(value=None))]
+        if isinstance(e, ast.IfExp):
+            # `a if c else b` is the two-branch `if`: one path per feasible branch
+            test = self.ev(e.test, st)
+            self.effects(e.test, st)
+            out = []
+            for pol, branch in ((True, e.body), (False, e.orelse)):
+                st2 = st.fork()
+                if self.assume(st2, test, pol):
+                    out += self.value_states(branch, st2)
+            return out
         if isinstance(e, ast.Call):
             callee = self._summarisable(e)
             if callee is not None:
@@ -959,7 +1671,8 @@ class Sym:
                     inner.env[nme] = self._fresh(nme, s)
             self.block(s.body, [inner])          # returns / raises / hits inside are recorded
             after = st.fork()
-            self._havoc(after, assigned | (set(assigned_names(s.target)) if not isinstance(s, ast.While) else set()), s)
+            for nme in assigned | (set(assigned_names(s.target)) if not isinstance(s, ast.While) else set()):
+                after.env[nme] = self._fresh(nme, s, '_')        # value after the loop, not the one at an iteration's start
             # heap effects of the body: replay them on the state after the loop
             for b in s.body:
                 for x in walk_no_nested(b):
@@ -1059,4 +1772,4 @@ class Sym:
 def sym_show(e: ast.AST | None) -> str:
     """text of a symbolic value without the internal epoch / loop tags"""
     import re
-    return re.sub(r'@e?\d+', '', norm(e)) if e is not None else 'None'
+    return re.sub(r'@e?\d+_?', '', norm(e)) if e is not None else 'None'
